@@ -189,6 +189,10 @@ func corrTasks(r *hx.Rand, o *hx.Opts) []*task {
 			addCall("op", op, args)
 		}
 	}
+	// products whose decimal exponent leaves +-100000 (maxNumberExponent) are error values
+	for _, pair := range [][2]string{{"1E-60000", "1E-60000"}, {"1E60000", "1E60000"}, {"1E-60000", "1E-40000"}, {"1E-60000", "1E-40001"}, {"1E60000", "1E40001"}, {"1E-60000", "1E60000"}} {
+		addCall("op", "op:*", []VSpec{named(pair[0], vNum(pair[0])), named(pair[1], vNum(pair[1]))})
+	}
 	arityOf := map[string][2]int{"word": {2, 3}, "word_slice": {2, 4}, "field": {3, 3}, "text_slice": {2, 4}, "char": {1, 1}, "repeat": {2, 2}, "replace": {3, 4},
 		"round": {1, 2}, "round_up": {1, 2}, "round_down": {1, 2}, "mod": {2, 2}, "mean": {1, 4}, "max": {1, 4}, "min": {1, 4}, "percent": {1, 1}, "format_number": {1, 3},
 		"date_from_parts": {3, 3}, "time_from_parts": {3, 3}, "datetime_add": {3, 3}, "array": {0, 4}, "object": {0, 4}, "extract_object": {2, 4}, "foreach": {2, 4}, "has_group": {2, 3}}
